@@ -58,6 +58,16 @@ out.append(tbl)
 n = tbl.count("\n| C")
 missed = tbl.count("| MISSED")
 out.append(f"\n{n} seeded changes, {n - missed} caught by the current checks, {missed} missed.\n")
+out.append("### 13.5 Property theorems per property (audited on every run; statements in `lean/Proofs/Cxx.lean`, `tools/statements.py Cxx` prints them elaborated)\n")
+for p_ in props:
+    pid = p_["id"]
+    try:
+        e = json.load(open(os.path.join(HERE, "evidence", pid + ".json")))
+        names = [t.split(".")[-1] for t in e["coverage"].get("property_theorems", {})]
+    except Exception:
+        names = []
+    out.append(f"* **{pid}** ({len(names)}): " + ", ".join(f"`{n}`" for n in names))
+out.append("")
 block = "\n".join(out)
 p = os.path.join(HERE, "DESIGN.md")
 s = open(p).read()
